@@ -8,3 +8,4 @@ import contracts.memo  # noqa
 INFO = {'not_decided': ['AugAssign is outside the stated grammar (x += a is not counted as a read of x)'],
         'stated_lemmas': ['composition lemma (DESIGN 2.2): per-construct contracts + table lemmas => names_at(read) is the set of '
                           'reaching definitions; spec vs CPython is trusted'], 'trusted': []}
+import contracts.composition  # noqa
